@@ -55,6 +55,18 @@ func (c06) Gen(r *kern.Rng, tier string, idx int) *Trace {
 	}
 	n1 := sc.Data.Len
 	sc.Ops = GenOps(r, n1, r.Pick(0, 0, 10, 40), 60)
+	if r.Pct(25) {
+		// an earlier life that is abandoned, closed twice, or hits a failing
+		// destination before the Writer is reused through Reset
+		sc.Ops = genH1(r, n1)
+		if r.Pct(40) {
+			sc.Fault = &kern.SinkFault{AtCall: 1 + r.Intn(6), Short: r.Bool()}
+		}
+		n := scen.GenLen(r, 20000)
+		sc.Data.Len += n
+		sc.Ops = append(sc.Ops, scen.WOp{K: "r"})
+		sc.Ops = append(sc.Ops, GenOps(r, n, r.Pick(0, 20), 30)...)
+	}
 	// reuse through Reset: further members/streams
 	for k := r.Pick(0, 0, 1, 2); k > 0; k-- {
 		n := scen.GenLen(r, 20000)
@@ -167,6 +179,9 @@ func (c06) Exec(tr *Trace, keep bool) *Outcome {
 	o.stat("pkg_"+sc.Pkg, 1)
 	// Writers must reject exactly what the stdlib rejects
 	for i := range frec.Ops {
+		if sc.Fault != nil {
+			break // histories with an injected sink fault: only the containers after Reset are judged
+		}
 		if frec.Ops[i].K != "r" && (frec.Ops[i].Err == nil) != (srec.Ops[i].Err == nil) {
 			o.violate(tr, "C06.error_parity", fmt.Sprintf("op %d (%s): fastgo %v, stdlib %v", i, frec.Ops[i].K, frec.Ops[i].Err, srec.Ops[i].Err), feat)
 			return o
@@ -189,12 +204,21 @@ func (c06) Exec(tr *Trace, keep bool) *Outcome {
 			continue
 		}
 		nClose := 0
+		clean := true
 		for _, op := range ops {
 			if op.K == "c" {
 				nClose++
 			}
+			if op.Err != nil {
+				clean = false
+			}
 		}
-		if nClose != 1 {
+		for _, op := range srec.Ops {
+			if op.Seg == si && op.Err != nil {
+				clean = false
+			}
+		}
+		if nClose != 1 || !clean || seg.Sink.Failed {
 			continue
 		}
 		f := copyFeat(feat)
@@ -361,6 +385,11 @@ func (c07) Gen(r *kern.Rng, tier string, idx int) *Trace {
 	sc.Src = genSrc(r, true)
 	sc.Del = genDelivery(r)
 	sc.Reads = genReads(r)
+	if pkg == "gzip" && r.Pct(40) {
+		// member by member on a buffered source: the other way a gzip file is read
+		sc.NoMulti = true
+		sc.Src = scen.SrcSpec{Kind: "bufio", Buf: bufSizes[r.Intn(len(bufSizes))]}
+	}
 	tr := &Trace{Property: "C07", Family: "R-malformed/R-trunc on containers", R: sc, Sweep: true, Stride: 1}
 	if tier != "thorough" {
 		tr.Stride = 0
